@@ -12,7 +12,6 @@ package header
 //@ func newClaimInjector$3
 //@ safety
 //@ prop C07
-//@ requires[config:captured-by-constructor-after-deref] source != nil
 //@ modifies header.hdr
 //@ at call Add assert[plain-claim-under-configured-name] arg(Add, 1) == name && arg(Add, 2) == claim && claim != ""
 //@     && claim == claimValues[rangeindex + 1] && claimValues == ret(GetClaim) && arg(GetClaim, 0) == session
@@ -21,7 +20,6 @@ package header
 //@ func newClaimInjector$2
 //@ safety
 //@ prop C07
-//@ requires[config:captured-by-constructor-after-deref] source != nil
 //@ modifies header.hdr
 //@ at call Add assert[prefixed-claim-under-configured-name] arg(Add, 1) == name && arg(Add, 2) == source.Prefix + claim && claim != ""
 //@     && claim == claimValues[rangeindex + 1] && claimValues == ret(GetClaim) && arg(GetClaim, 0) == session
@@ -30,7 +28,6 @@ package header
 //@ func newClaimInjector$1
 //@ safety
 //@ prop C07
-//@ requires[config:captured-by-constructor-after-deref] source != nil
 //@ modifies header.hdr
 //@ at call Add assert[basic-auth-of-claim-under-configured-name] arg(Add, 1) == name && claim != ""
 //@     && arg(Add, 2) == "Basic " + b64enc(base64.StdEncoding, claim + ":" + bytes(password))
